@@ -232,7 +232,7 @@ def _run(tier, replay=None):
     rep = vlib.Report("C03", "proof", tier, "cd coq && make Properties/C03.vo  (coqc 8.16.1, full .vo build)")
     rng = vlib.SplitMix64(vlib.seed() * 1000003 + 3)
     ok, broken = vlib.coq_step(rep, "C03", gen(), extract="Aesmodes")
-    impl_exe = vlib.cc_harness("xts", ["xts_drv.c", "vcpuid.S"], "hook")
+    impl_exe = vlib.cc_harness("xts", ["xts_drv.c", "vcpuid.S", "poison.S"], "hook")
     model_exe = vlib.ocaml_driver("xts", "Aesmodes")
     # every family symbol of the archive must be one the driver calls
     fam, unknown = aesmlib.families(aesmlib.archive_symbols("hook"), r"_XTS_AES_(128|256)_(enc|dec)(_expanded_key)?_([a-z0-9]+)", KNOWN_FAMILIES)
